@@ -3598,6 +3598,18 @@ handle_request(coap_context_t *context, coap_session_t *session, coap_pdu_t *pdu
                                goto finish);
   }
 
+  /* The body has been passed on: the transfer is over whatever the handler did */
+  if (free_lg_srcv) {
+    /* Check to see if the server is doing a 4.01 + Echo response */
+    if (response->code ==  COAP_RESPONSE_CODE(401) &&
+        coap_check_option(response, COAP_OPTION_ECHO, &opt_iter)) {
+      /* Need to keep lg_srcv around for client's response */
+    } else {
+      LL_DELETE(session->lg_srcv, free_lg_srcv);
+      coap_block_delete_lg_srcv(session, free_lg_srcv);
+    }
+  }
+
   /* Check validity of response code */
   if (!coap_check_code_class(session, response)) {
     coap_log_warn("handle_request: Invalid PDU response code (%d.%02d)\n",
@@ -3609,16 +3621,6 @@ handle_request(coap_context_t *context, coap_session_t *session, coap_pdu_t *pdu
   /* Check if lg_xmit generated and update PDU code if so */
   coap_check_code_lg_xmit(session, pdu, response, resource, query);
 
-  if (free_lg_srcv) {
-    /* Check to see if the server is doing a 4.01 + Echo response */
-    if (response->code ==  COAP_RESPONSE_CODE(401) &&
-        coap_check_option(response, COAP_OPTION_ECHO, &opt_iter)) {
-      /* Need to keep lg_srcv around for client's response */
-    } else {
-      LL_DELETE(session->lg_srcv, free_lg_srcv);
-      coap_block_delete_lg_srcv(session, free_lg_srcv);
-    }
-  }
   if (added_block && COAP_RESPONSE_CLASS(response->code) == 2) {
     /* Just in case, as there are more to go */
     response->code = COAP_RESPONSE_CODE(231);
